@@ -78,9 +78,7 @@ func (c *TrackSetController) Add(op *TrackOp) {
 }
 
 func (c *TrackSetController) Distribute(op *TrackOp) {
-	for i := range c.set.Len() {
-		c.set.Add(i, op)
-	}
+	c.set.Distribute(op)
 }
 
 func (c TrackSetController) Set() *TrackSet { return c.set }
@@ -126,6 +124,14 @@ func (ts *TrackSet) Add(trackNo int, op *TrackOp) {
 			continue
 		}
 		x.AddTickDelta(delta)
+	}
+}
+
+// Distribute adds a copy of op to every track, all tracks advance by the op's tick delta together.
+func (ts *TrackSet) Distribute(op *TrackOp) {
+	for _, t := range ts.list {
+		x := *op
+		t.Add(&x)
 	}
 }
 
